@@ -174,7 +174,7 @@ def check_iomap(ctx, op, io_map, expect_keys, n):
 def check(case, ctx):
     cg = ctx.cg
     cd = case["c"]
-    c = G.build(cg, cd, "graph")
+    c = G.build(cg, cd, "sparse" if len(cd["nodes"]) % 3 == 0 else "graph")
     net = Net.of(c)
     n = case["n"]
     op = case["op"]
